@@ -354,7 +354,7 @@ class C17(Machine):
 
     def plan(self, tier):
         if tier == 'quick':
-            return {'runs': 2400, 'budget_s': 300, 'det_runs': 3,
+            return {'runs': 2000, 'budget_s': 600, 'det_runs': 3,
                     'run_timeout': 120, 'shrink_s': 120}
         return {'runs': 80000, 'budget_s': 3000, 'det_runs': 5,
                 'run_timeout': 200, 'shrink_s': 200}
